@@ -25,44 +25,64 @@ def kill_orphans(pgid):
         pass
 
 
-HARNESS_RE = re.compile(r'^Checking harness (\S+?)\.\.\.', re.M)
+THREAD_RE = re.compile(r'(?m)^Thread (\d+): ?')
+
+
+def _parse_block(part, r):
+    ms = re.search(r'VERIFICATION:- (SUCCESSFUL|FAILED)', part)
+    r['result'] = ms.group(1) if ms else 'UNKNOWN'
+    mc = re.search(r'\*\* (\d+) of (\d+) failed', part)
+    if mc:
+        r['checks_failed'], r['checks_total'] = int(mc.group(1)), int(mc.group(2))
+    mcov = re.search(r'\*\* (\d+) of (\d+) cover properties satisfied', part)
+    if mcov:
+        r['covers_sat'], r['covers_total'] = int(mcov.group(1)), int(mcov.group(2))
+    mt = re.search(r'Verification Time: ([0-9.]+)s', part)
+    if mt:
+        r['time_s'] = float(mt.group(1))
+    fails = []
+    for fm in re.finditer(r'Failed Checks: (.*)\n\s*File: "([^"]+)", line (\d+), in (\S+)', part):
+        fails.append({'description': fm.group(1).strip(), 'file': fm.group(2), 'line': int(fm.group(3)), 'function': fm.group(4)})
+    if not fails:
+        for fm in re.finditer(r'Failed Checks: (.*)', part):
+            fails.append({'description': fm.group(1).strip()})
+    r['failed_checks'] = fails
+    r['unwind_failure'] = any('unwinding assertion' in f['description'] for f in fails)
+    r['stubs'] = re.findall(r'- Stub: (\S+)', part)
+    if 'CBMC timed out' in part:
+        r['result'] = 'TIMEOUT'
+    elif 'CBMC failed' in part and not fails and not mc:
+        r['result'] = 'TOOL-ERROR'
+    r['raw'] = part[-5000:]
 
 
 def parse(output, wanted):
-    """Kani terse/regular output -> {harness: {...}}"""
+    """Kani terse output (with -j: blocks prefixed 'Thread N:') -> {harness short name: {...}}"""
     res = {}
-    # split output by "Checking harness"
-    parts = re.split(r'(?m)^(?=Checking harness )', output)
-    for part in parts:
-        m = HARNESS_RE.match(part)
-        if not m:
-            continue
-        full = m.group(1)
-        name = full.split('::')[-1]
-        r = {'full_name': full}
-        ms = re.search(r'VERIFICATION:- (SUCCESSFUL|FAILED)', part)
-        r['result'] = ms.group(1) if ms else 'UNKNOWN'
-        mc = re.search(r'\*\* (\d+) of (\d+) failed', part)
-        if mc:
-            r['checks_failed'], r['checks_total'] = int(mc.group(1)), int(mc.group(2))
-        mcov = re.search(r'\*\* (\d+) of (\d+) cover properties satisfied', part)
-        if mcov:
-            r['covers_sat'], r['covers_total'] = int(mcov.group(1)), int(mcov.group(2))
-        mt = re.search(r'Verification Time: ([0-9.]+)s', part)
-        if mt:
-            r['time_s'] = float(mt.group(1))
-        fails = []
-        for fm in re.finditer(r'Failed Checks: (.*)\n\s*File: "([^"]+)", line (\d+), in (\S+)', part):
-            fails.append({'description': fm.group(1).strip(), 'file': fm.group(2), 'line': int(fm.group(3)), 'function': fm.group(4)})
-        if not fails:
-            for fm in re.finditer(r'Failed Checks: (.*)', part):
-                fails.append({'description': fm.group(1).strip()})
-        r['failed_checks'] = fails
-        r['unwind_failure'] = any('unwinding assertion' in f['description'] for f in fails)
-        r['stubs'] = re.findall(r'- Stub: (\S+)', part)
-        if 'CBMC timed out' in part or 'timed out' in part.lower() and r['result'] == 'UNKNOWN':
-            r['result'] = 'TIMEOUT'
-        res[name] = r
+    cur = {}  # thread -> harness name
+    pieces = THREAD_RE.split(output)
+    # pieces = [pre, tid, text, tid, text, ...]
+    if len(pieces) >= 3:
+        for k in range(1, len(pieces) - 1, 2):
+            tid, text = pieces[k], pieces[k + 1]
+            m = re.match(r'Checking harness (\S+?)\.\.\.', text)
+            if m:
+                cur[tid] = m.group(1)
+                continue
+            full = cur.get(tid)
+            if full is None:
+                continue
+            r = {'full_name': full}
+            _parse_block(text.split('Manual Harness Summary')[0], r)
+            res[full.split('::')[-1]] = r
+    else:
+        for part in re.split(r'(?m)^(?=Checking harness )', output):
+            m = re.match(r'Checking harness (\S+?)\.\.\.', part)
+            if not m:
+                continue
+            r = {'full_name': m.group(1)}
+            _parse_block(part.split('Manual Harness Summary')[0], r)
+            res[m.group(1).split('::')[-1]] = r
     return res
 
 
